@@ -97,23 +97,30 @@ class Run:
         return d
 
     def tlc(self, d, module, cfg_text, workers=None, timeout=3000, extra=None, heap=None):
+        """Runs TLC; the complete output goes to <module>.out, the returned text leaves out the (possibly huge) emitted TRANS lines."""
         with open(os.path.join(d, module + ".cfg"), "w") as f:
             f.write(cfg_text)
         md = os.path.join(d, "md-" + module)
         shutil.rmtree(md, ignore_errors=True)
         cmd = ["tlc", "-workers", str(workers or NCPU), "-metadir", md] + (extra or []) + [module + ".tla"]
-        env = dict(os.environ)
         t0 = time.time()
-        try:
-            rc, o = sh(cmd, cwd=d, env=env, timeout=timeout)
-        except subprocess.TimeoutExpired:
-            subprocess.run(["pkill", "-f", md])
-            raise Infra("TLC timed out after %ds: %s" % (timeout, " ".join(cmd)))
+        outp = os.path.join(d, module + ".out")
+        with open(outp, "w") as of:
+            p = subprocess.Popen(cmd, cwd=d, stdout=of, stderr=subprocess.STDOUT)
+            try:
+                rc = p.wait(timeout=timeout)
+            except subprocess.TimeoutExpired:
+                p.kill()
+                subprocess.run(["pkill", "-f", md])
+                raise Infra("TLC timed out after %ds: %s" % (timeout, " ".join(cmd)))
         shutil.rmtree(md, ignore_errors=True)
         self.cov["tlc_cmds"].append("(cd %s && %s)  # %.1fs" % (os.path.relpath(d, ROOT), " ".join(cmd), time.time() - t0))
-        with open(os.path.join(d, module + ".out"), "w") as f:
-            f.write(o)
-        return rc, o
+        keep = []
+        with open(outp, errors="replace") as f:
+            for line in f:
+                if not line.startswith('<<"TRANS"'):
+                    keep.append(line)
+        return rc, "".join(keep)
 
     def model_check(self, module, cfg_text, name=None, timeout=3000, must_hold=True):
         """(M): exhaustive check of a bounded configuration. A violation here is a specification bug -> Infra."""
